@@ -379,7 +379,7 @@ type Huge struct {
 	LenWord   uint32 `json:"len_word"`
 	Type      byte   `json:"type"`
 	Delivered int    `json:"delivered"`
-	Pos       string `json:"pos"` // session | startup
+	Pos       string `json:"pos"` // session | startup | password
 	Smuggle   bool   `json:"smuggle,omitempty"`
 }
 
@@ -394,9 +394,21 @@ func RunHuge(c Huge) core.Result {
 		res.Labels = append(res.Labels, "huge-length")
 	}
 	cfg := script.Config{Table: table(), SetLimit: true, Limit: c.Limit}
+	if c.Pos == "password" {
+		cfg.Auth = &script.AuthSpec{User: "u", Pass: "pw"}
+	}
 	env := script.Start(cfg)
 	defer env.Stop()
 	s := env.NewSess()
+	if c.Pos == "password" {
+		// up to the password prompt; the huge message stands where the password message belongs
+		c.Type = 'p'
+		s.C.Send(pgwire.Startup([][2]string{{"user", "u"}}))
+		if s.C.WaitIdle(script.Guard) != memnet.Idle {
+			res.Inconclusive = "startup (password prompt)"
+			return res
+		}
+	}
 	if c.Pos == "session" {
 		st := s.Startup([][2]string{{"user", "u"}}, nil)
 		if st.State != memnet.Idle {
@@ -459,6 +471,13 @@ func RunHuge(c Huge) core.Result {
 		}
 		if closed, _ := s.C.ServerClosed(); closed {
 			return core.Fail("C10/huge/closed", "length word %d with only %d body bytes delivered: the server closed the connection instead of skipping the declared length", c.LenWord, len(body))
+		}
+	}
+	if (c.Pos == "startup" || c.Pos == "password") && c.LenWord >= 4 && int64(c.LenWord)-4 > int64(c.Limit) && c.Limit > 0 {
+		// during start-up or authentication an oversized message ends the connection: the server does
+		// not wait for a body it is never going to use (the client is still connected and silent)
+		if closed, _ := s.C.ServerClosed(); !closed {
+			return core.Fail("C10/huge/startup-not-closed", "a %s message declaring %d bytes (limit %d), %d of them delivered: the connection is still open, the server waits for the rest of a message it must refuse", c.Pos, c.LenWord-4, c.Limit, c.Delivered)
 		}
 	}
 	// the message is rejected (ErrorResponse or close) or the server keeps skipping; input ends -> handling ends
